@@ -7,7 +7,7 @@ import RbModel.Drv.Util
 namespace RbModel.Drv.Lifecycle
 open RbModel RbModel.Drv RbModel.Life
 
-def cmds : List String := ["lc", "lcrand"]
+def cmds : List String := ["lc", "lcclear", "lcrand"]
 
 def hexDigit (c : Char) : Option Nat :=
   if '0' ≤ c ∧ c ≤ '9' then some (c.toNat - '0'.toNat)
@@ -169,9 +169,44 @@ def handleLc (rest : List String) : Option String :=
     | .error e => pure s!"panic {panicName e}"
     | .ok states => pure ("ok " ++ " | ".intercalate states)
 
+def kvGet (ts : List String) (k : String) : Option String :=
+  ts.findSome? fun t => if t.startsWith (k ++ "=") then some (t.drop (k.length + 1)).toString else none
+
+def optField (s : String) : Option (Option Nat) :=
+  if s == "-" then some none else s.toNat?.map some
+
+/-- `lcclear k=v …`: a state with every field as given, then `Life.clear`; same reply as harness `lcclear`.
+    The model of `clear()` leaves both context arrays as in a fresh buffer (all slots U+0000): `cx=`. -/
+def handleClear (ts : List String) : Option String := do
+  let num (k : String) : Option Nat := (kvGet ts k).bind String.toNat?
+  let n ← num "n"
+  let iS ← kvGet ts "I"
+  let recs ← if iS == "-" then some [] else parsePairs iS false
+  if recs.length != n then none
+  let il ← num "il"
+  let pl ← num "pl"
+  if il < n then none
+  let info : List Info := recs.map (fun (g, c) => { gid := g, cluster := c }) ++ List.replicate (il - n) ({} : Info)
+  let maxOps ← (kvGet ts "O").bind String.toInt?
+  let b : Buf := {
+    info := info, out := List.replicate pl ({} : Info), idx := ← num "i", len := n, outLen := ← num "o",
+    haveOutput := (← num "h") != 0, sepOut := (← num "s") != 0, havePos := (← num "p") != 0,
+    successful := (← num "ok") != 0, level := ← num "L", flags := ← num "F", scratch := ← num "sc",
+    maxLen := ← num "M", maxOps := maxOps, serial := ← num "se" }
+  let gS ← kvGet ts "G"
+  let lang ← if gS == "-" then some none else (hexBytes (gS.drop 1).toString).map some
+  let inv ← kvGet ts "inv"
+  if inv != "-" then none     -- `invisible` is not a field of the model (never written in the crate)
+  let u : UBuf := {
+    b := b, dir := ← num "D", script := ← (kvGet ts "S").bind optField, lang := lang,
+    pre := ← (kvGet ts "pre").bind parseCps, post := ← (kvGet ts "post").bind parseCps,
+    shapingFailed := (← num "sf") != 0, nfvs := ← (kvGet ts "nf").bind optField }
+  pure (fmtLife (clear u) "U" false ++ " cx=0,0,0,0,0/0,0,0,0,0")
+
 def handle (ts : List String) : Option String :=
   match ts with
   | "lc" :: rest => handleLc rest
+  | "lcclear" :: rest => handleClear rest
   | ["lcrand", _, n] => do
       let n ← n.toNat?
       pure (joinNats (randomSeq randomInit n))
